@@ -152,7 +152,7 @@ func resolverResult(f *ssa.Function, memo map[*ssa.Function]string, depth int) s
 		case *ssa.Call:
 			sc := x.Common().StaticCallee()
 			if sc != nil && funcPkgPath(sc) == "reflect" {
-				switch sc.Name() {
+				switch core.FuncName(sc) {
 				case "Addr":
 					return "takes the address of its argument (reflect.Value.Addr)"
 				case "New":
@@ -210,7 +210,25 @@ func resolverIdentity(p *core.Prog, r *core.Result) {
 			r.Undecided(".RESOLVER-IDENTITY", "gotype."+root, "resolver builder not found")
 			continue
 		}
-		for _, c := range rf.AnonFuncs {
+		// the resolvers: closures of the builder, and package-level functions it refers to as values
+		cands := append([]*ssa.Function{}, rf.AnonFuncs...)
+		seenC := map[*ssa.Function]bool{}
+		for _, b := range rf.Blocks {
+			for _, in := range b.Instrs {
+				for _, op := range in.Operands(nil) {
+					if fn, ok := (*op).(*ssa.Function); ok && fn.Parent() == nil && core.FuncPkg(fn) == core.FuncPkg(rf) {
+						if c, isCall := in.(ssa.CallInstruction); isCall && c.Common().Value == *op {
+							continue
+						}
+						if !seenC[fn] {
+							seenC[fn] = true
+							cands = append(cands, fn)
+						}
+					}
+				}
+			}
+		}
+		for _, c := range cands {
 			sig := c.Signature
 			if sig.Params().Len() != 1 || sig.Results().Len() != 2 || sig.Params().At(0).Type().String() != "reflect.Value" || sig.Results().At(0).Type().String() != "reflect.Value" {
 				continue
@@ -265,7 +283,7 @@ func nilFolder(p *core.Prog, r *core.Result) {
 							continue
 						}
 						sc := c2.Common().StaticCallee()
-						if sc == nil || sc.Name() != "IsNil" || funcPkgPath(sc) != "reflect" {
+						if sc == nil || core.FuncName(sc) != "IsNil" || funcPkgPath(sc) != "reflect" {
 							continue
 						}
 						// the nil outcome must not reach the call
